@@ -235,7 +235,8 @@ def run_c08(ctx):
     devs = known_devs(FAMILY_PROPS)
     aspects = {"data", "calls"}
     vecs, uni, devs = enumerate_cases(ctx, ["abstract", "absops", "forms", "defectabs", "inline1", "inline2", "spread"])
-    rep = replay(ctx, vecs, uni, "replay-refl", strategies="refl")
+    # (reflection in its binding modes, and Resolver objects that are values of registered named map types)
+    rep = replay(ctx, vecs, uni, "replay-refl", strategies="iface,refl")
     absorb(ctx, rep, "replay-refl", aspects, devs, ctx.prop)
     record_and_judge(ctx, uni, "record-refl-abstract", aspects, devs, ctx.prop, 1200 if ctx.tier == "quick" else 12000,
                      strategies="refl", universes=0, extra=["-abstract"], depth=4)
@@ -244,7 +245,8 @@ def run_c08(ctx):
                 "{each object, interface, union, none}) x concrete type, inline and named, nested, executed with reflected Go types bound by name, "
                 "by RegisterType and by @go; data and call log must equal Sem's (which decides by the Applies relation); random documents with abstract "
                 "conditions recorded and judged by ExecJudge.tla. non-trivial = at least two resolver calls")
-    ctx.assumptions.append("the Resolver-interface-only limitation documented by ggql is outside the claim: these families run on the reflection strategy")
+    ctx.assumptions.append("Resolver objects whose Go types are not bound to object types are outside the claim (the limitation ggql documents): these "
+                           "families run on the reflection strategy and on Resolver objects of registered Go types (named map types)")
 
 
 def subscription_selections(ctx):
